@@ -319,7 +319,8 @@ impl BinArchive {
         }
 
         if let Endian::Big = self.endian {
-            labels.sort_by(|a, b| a.1.cmp(b.1));
+            // Equal names on different addresses would otherwise keep the hash map's order.
+            labels.sort_by(|a, b| a.1.cmp(b.1).then(a.0.cmp(b.0)));
         } else {
             labels.sort_by(|a, b| a.0.cmp(b.0));
         }
